@@ -636,6 +636,12 @@ def borrow_stub(eng, st, site, func, target, args, dty):
 @stub(r"std::borrow::ToOwned for \[T\]>::to_owned$|std::borrow::ToOwned for str>::to_owned$|^std::borrow::ToOwned::to_owned$|"
       r"^(core|std|alloc)::slice::<impl \[T\]>::to_vec$|^std::vec::Vec::<T>::from$|<std::vec::Vec<T> as std::convert::From<&\[T\]>>::from$|^std::string::String::from_utf8_unchecked$|::to_string$")
 def to_owned_stub(eng, st, site, func, target, args, dty):
+    a0 = args[0]
+    if isinstance(a0, VRef):
+        a0 = eng.load(st, a0.cell, a0.path)
+    if isinstance(a0, VInt) and target["name"].endswith("to_string"):
+        import stubs3
+        return stubs3.int_to_string(eng, st, site, func, target, args, dty)
     s = as_slice(eng, st, args[0])
     if s is None:
         return None
@@ -882,7 +888,11 @@ def iter_chain(eng, st, site, func, target, args, dty):
     a = iter_items(eng, st, args[0] if not isinstance(args[0], VArr) else VIter("array", args[0].elems, 0))
     b = iter_items(eng, st, args[1] if not isinstance(args[1], VArr) else VIter("array", args[1].elems, 0))
     if a is None or b is None:
-        return None
+        import stubs3
+        ia, ib = stubs3._as_iter(eng, st, args[0]), stubs3._as_iter(eng, st, args[1])
+        if ia is None or ib is None:
+            return None
+        return [(st, VIter("chain2", None, 0, (ia, ib), None))]
     return [(st, VIter("array", tuple(a) + tuple(b), 0, "chain"))]
 
 
